@@ -29,7 +29,7 @@ CHECKS = {
         "technique": "deterministic simulation with fault injection: seeded rule-add schedules + upgrade/restart life cycle on fake network and fake disk with crash points, set-based PSL reference model, ddmin-minimised replay",
     },
     "C11": {
-        "text": "Seeded deterministic simulation of set / __setitem__ / set_lru histories on one trie of a seeded class (LRUTrie, Canonicalized-, Normalized-, FingerprintedLRUTrie) x suffix_aware x the variant's options, by 1-3 writer clients with readers, live iterator tasks and faults (set() of a URL the tokeniser rejects, iterator cancellation) interleaved by a seeded scheduler. After every mutating event every URL of a per-run universe (12-80 URLs: scheme x auth x host chain x port x path chain x query x fragment and the spellings the variant merges) is matched and compared with longest-prefix lookup in a dict model keyed by cleaned stems; list and serialised LRUs must be interchangeable; len and iteration are compared; independently, all URLs the variant's URL-level function maps to one string must give the same answer and hit right after one of them is stored. Sampled evidence with minimised exactly-replayable counterexamples.",
+        "text": "Seeded deterministic simulation of set / __setitem__ / set_lru histories on one trie of a seeded class (LRUTrie, Canonicalized-, Normalized-, FingerprintedLRUTrie) x suffix_aware x the variant's options, by 1-3 writer clients with readers, live iterator tasks and faults (set() of a URL the tokeniser rejects, iterator cancellation) interleaved by a seeded scheduler. After every mutating event every URL of a per-run universe (12-80 URLs: scheme x auth x host chain x port x path chain x query x fragment and the spellings the variant merges) is matched and compared with longest-prefix lookup in a dict model keyed by cleaned stems; list and serialised LRUs must be interchangeable; len and iteration are compared; independently of the stem functions, all URLs the variant's URL-level function maps to one string must give the same answer and hit right after one of them is stored (same-key law, also on a sibling instance with the same option names and flipped values), a URL at or under a stored URL by construction must hit (hierarchy law, plain trie) and a hit needs a stored URL whose host is the query's or a label-wise suffix of it (cover law). The universe includes special hosts, facebook / youtube shapes for platform_aware, and redirect-carrying URLs. Sampled evidence with minimised exactly-replayable counterexamples.",
         "note": "Trusted: the prefix-map model (20 lines), CPython, and — shared between model and system — the repository's module-level stem functions (a stem bug consistent between set and match is C07/C12/C13's subject); the same-key law against canonicalize_url/normalize_url/fingerprint_url is the independent cross-check.",
         "design": "DESIGN.md §4 C11",
         "technique": "deterministic simulation with fault injection: seeded set/set_lru schedules over 4 trie classes x options, prefix-map reference model + same-key law, ddmin-minimised replay",
